@@ -79,7 +79,8 @@ type Fault struct {
 	// (EIO, or ENOSPC for the effect-free write failure); 1 another
 	// errno (EACCES for reads and listings, EDQUOT / EROFS for writes);
 	// 2 io.ErrShortWrite / io.ErrUnexpectedEOF as ioutil.WriteFile and
-	// io.ReadFull produce them; 3 the same wrapped with %w.
+	// io.ReadFull produce them; 3 the same wrapped with %w; 4 an errno
+	// that calls itself temporary (EINTR, ETIMEDOUT, EMFILE).
 	ErrStyle int
 }
 
@@ -106,6 +107,16 @@ func faultErr(op byte, p string, f Fault) error {
 			return fmt.Errorf("write %s: %w", p, io.ErrShortWrite)
 		}
 		return fmt.Errorf("read %s: %w", p, io.ErrUnexpectedEOF)
+	case 4:
+		// errnos that report themselves as temporary (Temporary() is true):
+		// an interrupted call, a timed-out network mount, no descriptors left
+		switch op {
+		case 'W':
+			return pathErr("write", p, syscall.EINTR)
+		case 'G':
+			return pathErr("open", p, syscall.EMFILE)
+		}
+		return pathErr("read", p, syscall.ETIMEDOUT)
 	}
 	switch {
 	case op == 'W' && f.Kind == WriteENOSPC:
